@@ -89,7 +89,9 @@ def _clear_member_fingerprints(target_dir):
 def facts_dir(repo=REPO, verbose=False):
     """Return the directory with fact files for the current tree, extracting if needed."""
     os.makedirs(os.path.join(CACHE, "facts"), exist_ok=True)
-    lock = open(os.path.join(CACHE, "lock"), "w")
+    # one extraction at a time per cargo target directory (self-test workers use their own target directories and run in parallel)
+    tname = os.path.basename((os.environ.get("SV_TARGET_DIR") or os.path.join(CACHE, "target")).rstrip("/"))
+    lock = open(os.path.join(CACHE, "lock-" + tname), "w")
     fcntl.flock(lock, fcntl.LOCK_EX)
     try:
         if not os.path.exists(DRIVER) or os.path.getmtime(DRIVER) < os.path.getmtime(os.path.join(DRIVER_DIR, "src", "main.rs")):
@@ -120,11 +122,12 @@ def facts_dir(repo=REPO, verbose=False):
             raise SystemExit("sv: fact files missing after extraction: %s" % missing)
         with open(ok, "w") as fh:
             fh.write("%.1f\n" % (time.time() - t0))
-        # keep the cache small: drop all but the 6 newest fact dirs
+        # keep the cache small: drop all but the 16 newest fact dirs (several self-test workers may be reading theirs)
         root = os.path.join(CACHE, "facts")
         ds = sorted((os.path.join(root, x) for x in os.listdir(root)), key=os.path.getmtime)
-        for old in ds[:-6]:
-            shutil.rmtree(old, ignore_errors=True)
+        for old in ds[:-16]:
+            if time.time() - os.path.getmtime(old) > 1800:
+                shutil.rmtree(old, ignore_errors=True)
         if verbose:
             sys.stderr.write("sv: extracted facts in %.1fs -> %s\n" % (time.time() - t0, d))
         return d
